@@ -297,12 +297,16 @@ pub fn run(c: Compiled, opts: &RunOpts) -> RunOut {
         }
     }
     let rows: Vec<u32> = igr.instructions.iter().map(|i| i.pos().row()).collect();
+    let trace: Option<Vec<String>> = if std::env::var("RBV_TRACE").is_ok() { Some(igr.instructions.iter().map(|i| format!("{:?}", i.element)).collect()) } else { None };
     let udt_for_tick = if want_typed { Some(udt.clone()) } else { None };
     let tick: verif::TickFn = {
         let obs = Rc::clone(&obs);
         Box::new(move |v: &TickView| {
             let mut o = obs.borrow_mut();
             o.ticks += 1;
+            if let Some(t) = &trace {
+                eprintln!("{:4} {} | states={} args={} v={} p={}", v.index, t.get(v.index).map(|s| s.chars().take(70).collect::<String>()).unwrap_or_default(), v.context.verif_states_len(), v.context.verif_argument_states_len(), v.value_stack, v.var_path_stack);
+            }
             if o.ticks > budget {
                 o.budget_hit = true;
                 return false;
